@@ -3,8 +3,8 @@ from gcv import typestate, rules_debt
 from gcv.props import common
 
 
-def run(chk, tier):
-    prog, T = typestate.engine("default")
+def run_config(chk, tier, cfgname):
+    prog, T = typestate.engine(cfgname)
     chk.explain("C09 (structural clauses only): exit structure of the debt-driven calls from the abstract reachability "
                 "of do_collection's MIR: the debt is consulted before any phase switch or unit of work (zero debt => no "
                 "progress, stays asleep), re-checked after every unit of work, and a PayDebt call returns from "
@@ -26,3 +26,17 @@ def run(chk, tier):
     rules_debt.check_formula(chk, prog)
     rules_debt.check_finish_cycle(chk, prog)
     rules_debt.check_helpers(chk, prog)
+
+
+def run(chk, tier):
+    cfgs = typestate.configs(tier)
+    chk.extra["feature_configs"] = cfgs
+    for c in cfgs:
+        chk.cfg = c
+        n_expl = len(chk.explanation)
+        nd = len(chk.not_decided)
+        run_config(chk, tier, c)
+        if c != cfgs[0]:
+            del chk.explanation[n_expl:]
+            del chk.not_decided[nd:]
+    chk.cfg = None
